@@ -199,6 +199,42 @@ carquet_status_t carquet_reader_row_group_matches(
     const parquet_schema_element_t* elem = &reader->schema->elements[schema_idx];
     carquet_physical_type_t type = elem->has_type ? elem->type : CARQUET_PHYSICAL_BYTE_ARRAY;
 
+    /* Min/max are ordered by the column's logical type. The comparators
+     * below implement the physical type's own order only (signed numbers,
+     * unsigned bytewise byte arrays); for a column whose logical type orders
+     * values differently - unsigned integers, decimals stored as byte arrays,
+     * FLOAT16, INTERVAL - they would misjudge the bounds, so nothing is ruled
+     * out for such a column. */
+    {
+        bool other_order = false;
+        if (elem->has_logical_type) {
+            const carquet_logical_type_t* lt = &elem->logical_type;
+            if (lt->id == CARQUET_LOGICAL_INTEGER && !lt->params.integer.is_signed) other_order = true;
+            if (lt->id == CARQUET_LOGICAL_DECIMAL &&
+                (type == CARQUET_PHYSICAL_BYTE_ARRAY || type == CARQUET_PHYSICAL_FIXED_LEN_BYTE_ARRAY)) other_order = true;
+            if (lt->id == CARQUET_LOGICAL_FLOAT16) other_order = true;
+        }
+        if (elem->has_converted_type) {
+            switch (elem->converted_type) {
+                case CARQUET_CONVERTED_UINT_8:
+                case CARQUET_CONVERTED_UINT_16:
+                case CARQUET_CONVERTED_UINT_32:
+                case CARQUET_CONVERTED_UINT_64:
+                case CARQUET_CONVERTED_INTERVAL:
+                    other_order = true;
+                    break;
+                case CARQUET_CONVERTED_DECIMAL:
+                    if (type == CARQUET_PHYSICAL_BYTE_ARRAY || type == CARQUET_PHYSICAL_FIXED_LEN_BYTE_ARRAY) other_order = true;
+                    break;
+                default:
+                    break;
+            }
+        }
+        if (other_order) {
+            return CARQUET_OK;
+        }
+    }
+
     /* The typed comparators read a whole value: the probe must be one, and
      * statistics shorter than the type's width (a 1-byte boolean bound, a
      * truncated bound in a damaged footer) cannot be used at all. */
